@@ -29,6 +29,11 @@ def classify(case):
                                       ("absent-or-wrong" if q.get("method") else "?"))
     if st == 407 and not any(v.startswith("Basic") for v in hdr.get("Proxy-Authenticate", [])):
         return "407-without-challenge"
+    if o.get("from_peer") or (st == 200 and q.get("method") == "CONNECT") or (o.get("dials") and st not in (407, 403, 451)):
+        if "zone" in ht:
+            return "zone-qualified-literal-forwarded-under-deny"
+        if "idna" in ht:
+            return "idna-mapped-host-name-forwarded-although-refusable"
     if o.get("from_peer"):
         if "unspec" in ht:
             return "unspecified-literal-forwarded-under-deny"
